@@ -64,7 +64,8 @@ def run(chk):
         K = r.choice([1, 1, 2, 3])
         thr = r.choice([None, 1e-4 * float(s.min()) ** 2])
         chunks = None if i % 3 else gen.random_composition(r, len(X), 3)
-        cfg = dict(w=None, mu=None, var=None, thr=None, sw=sw, eps=eps, cap=K, cthr=None,
+        eps_c = eps if i % 4 else r.choice([1e-3, 0.5])      # a raised mean_var_update_threshold in every fourth case
+        cfg = dict(w=None, mu=None, var=None, thr=None, sw=sw, eps=eps_c, cap=K, cthr=None,
                    map=dict(relevance=relevance, alpha=alpha, prior=(w, mu, var, thr)))
         ctx = {"switches(means,vars,weights)": list(sw), "relevance": relevance, "alpha": alpha.tolist() if alpha_array else alpha, "iterations": K,
                "prior_w": hexlist(w), "prior_mu": hexlist(mu), "prior_var": hexlist(var), "shape": [C, D], "X": hexlist(X),
@@ -73,8 +74,8 @@ def run(chk):
         m, prior = gt.build_machine(dict(cfg, cap=1))
         p0 = copy.deepcopy(prior)
         for k in range(K):
-            ew, emu, evar, n = expected_step(prior, m, X, sw, eps, relevance, alpha, squared=True)
-            fw, fmu, fvar, _ = expected_step(prior, m, X, sw, eps, relevance, alpha, squared=False)
+            ew, emu, evar, n = expected_step(prior, m, X, sw, eps_c, relevance, alpha, squared=True)
+            fw, fmu, fvar, _ = expected_step(prior, m, X, sw, eps_c, relevance, alpha, squared=False)
             m.fit(X)
             chk.count(1, key=("step", sw, relevance is None, starve, bool(np.any(n < eps))))
             sc = max(1.0, float(np.abs(X).max()))
@@ -118,6 +119,7 @@ def run(chk):
             # (with variance adaptation the adapted variances decide, not the prior's)
             starved2 = np.asarray(m2.acc_stats(b2).n) < eps
             starved2[0] = False
+            m2.max_fitting_steps = 1          # ONE step on the second batch: the counts read above are those of exactly this step
             m2.fit(b2)
             chk.count(1, key=("evidence-then-none", sw, bool(starved2.any())))
             if moved and starved2.any() and not np.allclose(np.asarray(m2.means)[starved2], np.asarray(prior2.means)[starved2], rtol=1e-12, atol=0):
@@ -125,7 +127,9 @@ def run(chk):
                          dict(ctx, batch1=hexlist(b1), batch2=hexlist(b2), prior_mu=hexlist(pmu)))
         # ---- the settings in force are the machine's CURRENT ones: a machine configured differently at construction (ML trainer, other
         #      relevance / ratio / switches / cap) and then re-configured through its attributes or set_params adapts exactly like one built that way
-        if i % 3 == 2:
+        # (only with the default count threshold: the constructor also takes mean_var_update_threshold as the default variance floor, so a machine
+        #  built with a raised threshold and one that gets it later legitimately differ in their floors)
+        if i % 3 == 2 and eps_c == eps:
             ref, _ = gt.build_machine(dict(cfg, cap=K))
             ref.fit(X)
             how = r.choice(["attributes", "set_params"])
@@ -133,7 +137,7 @@ def run(chk):
                               update_means=not sw[0], update_variances=not sw[1], update_weights=not sw[2],
                               mean_var_update_threshold=eps, max_fitting_steps=K + 3, convergence_threshold=0.5)
             final = dict(trainer="map", map_alpha=alpha, map_relevance_factor=relevance, update_means=sw[0], update_variances=sw[1],
-                         update_weights=sw[2], max_fitting_steps=K, convergence_threshold=None)
+                         update_weights=sw[2], max_fitting_steps=K, convergence_threshold=None, mean_var_update_threshold=eps_c)
             if how == "attributes":
                 for k_, v_ in final.items():
                     setattr(late, k_, v_)
@@ -177,6 +181,23 @@ def run(chk):
             if not (np.allclose(ma_.means, mb_.means, rtol=1e-12, atol=0) and np.allclose(ma_.weights, mb_.weights, rtol=1e-12, atol=0)):
                 chk.fail("MAP adaptation (fixed ratio 0.3) from statistics whose counts are integer-typed differs from the same counts as floats (means %s vs %s)"
                          % (np.asarray(ma_.means).tolist(), np.asarray(mb_.means).tolist()), dict(ctx, counts=n_int.tolist()))
+        # ---- soft statistics whose total frame count is fractional and below one (down-weighted frames): the data share of the weight blend is n/t
+        if i % 5 == 3 and sw[2]:
+            from bob.learn.em import gmm as gmm_module
+            stf = prior.acc_stats(X[:3])
+            kf_ = 0.2
+            stf.n, stf.sum_px, stf.sum_pxx = np.asarray(stf.n) * kf_, np.asarray(stf.sum_px) * kf_, np.asarray(stf.sum_pxx) * kf_
+            stf.t = 3 * kf_
+            mfr, _ = gt.build_machine(dict(cfg, cap=1))
+            gmm_module.m_step([stf], mfr)
+            nfr = np.asarray(stf.n, dtype=float)
+            afr = nfr / (nfr + relevance) if relevance is not None else np.broadcast_to(np.asarray(alpha, dtype=float), nfr.shape)
+            wfr = afr * (nfr / float(stf.t)) + (1 - afr) * np.asarray(prior.weights)
+            wfr = wfr / wfr.sum()
+            chk.count(1, key=("fractional-frame-count",))
+            if not np.allclose(np.asarray(mfr.weights), wfr, rtol=1e-10, atol=1e-14):
+                chk.fail("MAP weights from statistics with a fractional total frame count (t = %.3g) are not the renormalised blend a n/t + (1-a) w_prior" % float(stf.t),
+                         dict(ctx, t=float(stf.t), got=hexlist(mfr.weights), want=hexlist(wfr)))
         # prior untouched
         if not (np.array_equal(prior.means, p0.means) and np.array_equal(prior.variances, p0.variances) and np.array_equal(prior.weights, p0.weights)):
             chk.fail("the prior (UBM) was modified by MAP training", ctx)
@@ -187,14 +208,14 @@ def run(chk):
             if not np.allclose(mb.means, pb.means, rtol=1e-9, atol=1e-9 * float(np.abs(X).max() + 1)):
                 chk.fail("relevance 1e14 does not return the prior means", ctx)
             ms, ps = gt.build_machine(dict(cfg, cap=1, map=dict(relevance=1e-12, alpha=alpha, prior=(w, mu, var, thr))))
-            st = ps.acc_stats(X)
+            st = copy.deepcopy(ms).acc_stats(X)      # the machine's own E-step (a raised count threshold also raises its default variance floors)
             ms.fit(X)
             n = np.asarray(st.n)
             ml = np.asarray(st.sum_px) / np.where(n >= eps, n, 1.0)[:, None]
-            sel = n > 1e-3
+            sel = (n > 1e-3) & (n >= float(cfg["eps"]))     # a component below the (possibly raised) count threshold keeps the prior mean by the stated rule
             chk.count(1, key=("limits",))
             if not np.allclose(np.asarray(ms.means)[sel], ml[sel], rtol=1e-6, atol=1e-8 * float(np.abs(X).max() + 1)):
-                chk.fail("relevance 1e-12 does not return the ML mean estimate", ctx)
+                chk.fail("relevance 1e-12 does not return the ML mean estimate", dict(ctx, counts=hexlist(n), count_threshold=float(cfg["eps"]), got=hexlist(ms.means), ml=hexlist(ml)))
         # ---- correspondence case
         if not alpha_array:         # the model takes a scalar ratio; per-component ratios are covered by the step-by-step oracle above
             c = gt.make_case(cfg, X, chunks)
